@@ -131,6 +131,15 @@ type checkResult struct {
 // to per-process directories so that it cannot disturb a concurrent run against /repo.
 var repoRootOverride bool
 
+// altRoot: where a run against a scratch copy keeps its scratch and replay files. The seeded-change corpus gives each
+// of its instances a private root (GOVC_ALT_ROOT), so that concurrent instances never clean up each other's files.
+func altRoot() string {
+	if r := os.Getenv("GOVC_ALT_ROOT"); r != "" {
+		return r
+	}
+	return verifRoot
+}
+
 func cmdCheck(args []string) {
 	fs := flag.NewFlagSet("check", flag.ExitOnError)
 	repo := fs.String("repo", "/repo", "repository root")
@@ -413,7 +422,7 @@ func runProperty(repo, mirror, id string, timeout int, tier string) *checkResult
 	// developer run) cannot delete each other's SMT files; runs against another repository root use their own name
 	workDir := filepath.Join(verifRoot, "work", id)
 	if repoRootOverride {
-		workDir = filepath.Join(verifRoot, "work", fmt.Sprintf("%s-alt%d", id, os.Getpid()))
+		workDir = filepath.Join(altRoot(), "work", fmt.Sprintf("%s-alt%d", id, os.Getpid()))
 	}
 	os.RemoveAll(workDir)
 	os.MkdirAll(workDir, 0o755)
@@ -591,7 +600,7 @@ type replayResult struct {
 func writeReplay(repo, id, name, reason string, o *Oblig) replayResult {
 	dir := filepath.Join(verifRoot, "replay", id)
 	if repoRootOverride {
-		dir = filepath.Join(verifRoot, "replay", fmt.Sprintf("%s-alt%d", id, os.Getpid()))
+		dir = filepath.Join(altRoot(), "replay", fmt.Sprintf("%s-alt%d", id, os.Getpid()))
 	}
 	os.MkdirAll(dir, 0o755)
 	path := filepath.Join(dir, sanitize(name)+".json")
